@@ -77,7 +77,7 @@ PROPS = {
                     "only in c12_roundtrip (control frames between the fragments of one message are covered on the receive side by c13_partial and "
                     "by the generator, not by the round-trip theorem); the driver calls Ws.feed / Ws.upParse / Ws.appWrite of Model/ themselves; "
                     "asynchronous writes through the bounded send queue (Ws.appWriteQ: admission check after compression, then writeFrame's per-frame "
-                    "check): c12_sendq_all_or_nothing (accepted = appWrite, refused = nothing queued, state untouched) and c12_sendq_batch (a batch with refusals delivers exactly its accepted messages), exercised by `sendq=` cases "
+                    "check): c12_sendq_all_or_nothing (accepted = appWrite, refused = nothing queued, state untouched) and c12_sendq_batch (a batch with refusals delivers exactly its accepted messages); c12_sendq_batch_driver states it for Ws.batchQ (Model/WsBatch.lean), the function the driver calls on the B lines of sendq= cases, with the observed deflate outputs assumed to be a function of the payload (DeflTable); exercised by `sendq=` cases "
                     "whose sender conn is gated during a batch so that the queue length is deterministic; the writer goroutine's draining is not "
                     "modelled (the queue is empty again before the next batch starts: harness waits for it)",
             "technique": "Lean 4 proof (induction over frame and segment lists) + differential correspondence"},
